@@ -2231,6 +2231,33 @@ mut("add-rc-try-unwrap", "break", ["C01", "C04"], "Rc::try_unwrap added: moves t
 
     /// Consumes this pointer and release a strong reference count it was owning.""")], ["OWN-BALANCE"])
 
+mut("add-weak-peek", "break", ["C05", "C03"], "Weak::peek added: Option<&T> through a weak handle, under a name the witnesses do not know",
+    [ed(W, """    /// Returns `true` if the two pointer values, including the tag values set by `with_tag`,
+    /// are identical.
+    #[inline]
+    pub fn ptr_eq(&self, other: &Self) -> bool {""", """    /// Peeks at the object without upgrading.
+    pub fn peek(&self) -> Option<&T> {
+        unsafe { self.ptr.as_raw().as_ref().map(|inner| inner.data()) }
+    }
+
+    /// Returns `true` if the two pointer values, including the tag values set by `with_tag`,
+    /// are identical.
+    #[inline]
+    pub fn ptr_eq(&self, other: &Self) -> bool {""", 1)], ["TY-SIG"])
+mut("ok-add-weak-as-ptr", "benign", [], "Weak::as_ptr added: a raw pointer is not a dereference (std's Weak has it)",
+    [ed(W, """    /// Returns `true` if the two pointer values, including the tag values set by `with_tag`,
+    /// are identical.
+    #[inline]
+    pub fn ptr_eq(&self, other: &Self) -> bool {""", """    /// The address of the object (dangling once it is destructed).
+    pub fn as_ptr(&self) -> *const T {
+        unsafe { self.ptr.as_raw().as_ref().map_or(core::ptr::null(), |inner| inner.data() as *const T) }
+    }
+
+    /// Returns `true` if the two pointer values, including the tag values set by `with_tag`,
+    /// are identical.
+    #[inline]
+    pub fn ptr_eq(&self, other: &Self) -> bool {""", 1)])
+
 # behaviour-preserving refactorings written by sub-agents told to keep every interleaving's behaviour (selftest/refactors/)
 for f in sorted(glob.glob(os.path.join(HERE, "refactors", "*.diff"))):
     name = os.path.basename(f)[:-5]
